@@ -109,3 +109,12 @@ CHECKS["C15"] = (
     "DESIGN.md#c15",
 )
 NA.pop("C15", None)
+
+CHECKS["C07"] = (
+    "other",
+    "static analysis: structural / CFG-order checks of the two re-indexing funnels and the visuals' update methods, closed-writer-set query over every assignment to faces / vertices of an existing mesh, normal-form check of the merge key, CFG check of stacking offsets",
+    "Decides necessary structural conditions of C07 for all masks and meshes: update_faces / update_vertices slice every per-element store (data, normals, attributes, visuals) with the same mask in the order the cache requires; the visuals slice their stored colours / uv and drop derived colour memos; only classified functions re-assign faces or vertices of an existing mesh; merge keys are raw attributes times positive constants rounded once; stacking offsets count the vertices of every preceding group. Triangle positions, order preservation, split/concatenate multiset equality and merge tolerance are not decided.",
+    "Trusted: the frozen tables COUNT_CHANGERS / SAME_COUNT (reasons in the checker); several sub-rules match the funnels' statements textually after ast normalisation - an edit that rewrites them is reported as a violation of the funnel contract.",
+    "DESIGN.md#c07",
+)
+NA.pop("C07", None)
